@@ -2,6 +2,7 @@ package mon
 
 import (
 	"fmt"
+	"time"
 
 	marketapi "github.com/regen-network/regen-ledger/api/v2/regen/ecocredit/marketplace/v1"
 	markettypes "github.com/regen-network/regen-ledger/x/ecocredit/v3/marketplace/types/v1"
@@ -15,6 +16,31 @@ import (
 type C12 struct {
 	eng.BaseMonitor
 	nt bool
+	// stated[id] is the expiration the seller stated for the order (nil = none), taken
+	// from accepted Sell / UpdateSellOrders messages, not from stored state
+	stated map[uint64]*time.Time
+}
+
+func (m *C12) Init(w *eng.World) {
+	m.stated = map[uint64]*time.Time{}
+	for _, o := range w.S.SellOrders {
+		m.stated[o.Id] = expOf(o)
+	}
+}
+
+func expOf(o *marketapi.SellOrder) *time.Time {
+	if o.Expiration == nil {
+		return nil
+	}
+	t := o.Expiration.AsTime()
+	return &t
+}
+
+func sameTime(a, b *time.Time) bool {
+	if a == nil || b == nil {
+		return a == nil && b == nil
+	}
+	return a.Equal(*b)
 }
 
 func (*C12) Property() string { return "C12" }
@@ -25,6 +51,11 @@ func (m *C12) AfterBlock(w *eng.World, st *eng.BlockStep) {
 		return
 	}
 	T := st.Post.Time
+	for _, o := range st.Pre.SellOrders {
+		if e, known := m.stated[o.Id]; known && e != nil && !e.After(T) && st.Post.OrderByID(o.Id) != nil {
+			w.Violation("C12", "order-outlives-stated-expiration", "order %d was given expiration %s by its seller and still exists after BeginBlock at %s (stored expiration %v)", o.Id, e, T, o.Expiration)
+		}
+	}
 	removed := map[string]*rat{}
 	removedBySeller := map[string]int{}
 	for _, o := range st.Pre.SellOrders {
@@ -110,6 +141,26 @@ func snapDiffTables(st *eng.BlockStep) []string {
 func (m *C12) AfterMsg(w *eng.World, st *eng.MsgStep) {
 	if !st.Res.OK {
 		return
+	}
+	switch msg := st.Msg.(type) {
+	case *markettypes.MsgSell:
+		if resp, ok := st.Res.RespMsg.(*markettypes.MsgSellResponse); ok && len(resp.SellOrderIds) == len(msg.Orders) {
+			for i, id := range resp.SellOrderIds {
+				m.stated[id] = msg.Orders[i].Expiration
+			}
+		}
+	case *markettypes.MsgUpdateSellOrders:
+		for _, u := range msg.Updates {
+			if u.NewExpiration != nil {
+				m.stated[u.SellOrderId] = u.NewExpiration
+			}
+		}
+	}
+	// the stored expiration of every open order is the one its seller stated
+	for _, o := range st.Post.SellOrders {
+		if e, known := m.stated[o.Id]; known && !sameTime(e, expOf(o)) {
+			w.Violation("C12", "stored-expiration-differs-from-stated", "after %s order %d has stored expiration %v but its seller stated %v", st.Kind, o.Id, expOf(o), e)
+		}
 	}
 	if msg, ok := st.Msg.(*markettypes.MsgBuyDirect); ok {
 		for _, o := range msg.Orders {
